@@ -1,4 +1,5 @@
 HOOK_COMMITS = ["a00b145"]
+FIX_COMMITS = ["4be56b0", "7cf11ff", "908d75c", "71fe224"]
 PENDING = "check not built yet in this round (see DESIGN.md section 10 build order); listed here until its check is registered"
 CHECKS = {
  "C06": dict(engine="K+L", technique="bounded model checking of the compiled crate (Kani/CBMC, bit-precise, symbolic limbs) + SMT on release LLVM IR",
@@ -6,9 +7,20 @@ CHECKS = {
              design_ref="DESIGN.md 5 (C06), 2, 3",
              note="Trusted: Kani/CBMC, z3, Intel ADC/SBB semantics stub, interpretation of the uninterpreted 64x64 product as integer multiplication; Montgomery decode algebra (x -> x*R^-1 is an additive bijection)."),
 }
+def _k(text, ref, note=None, engine="K"):
+    return dict(engine=engine, technique="bounded model checking of the compiled crate (Kani/CBMC, bit-precise, symbolic bytes/limbs/lengths) with contract stubs; counterexamples replayed natively",
+                text=text, design_ref=ref, note=note or "Trusted: Kani/CBMC; Intel ADC/SBB stub; contract model of the Montgomery kernels (encode/decode mutually inverse bijections of [0,p), products canonical) justified by engine L; sqrt / AffineG::new contract models where listed in the evidence.")
+CHECKS.update({
+ "C07": _k("One-step inductive invariant 'stored limbs < p': every constructor (from_slice of every length, interpret, from_hash, from_str, random with arbitrary RNG stream, set_bit for every index) establishes it and every linear operator preserves it, from an ARBITRARY canonical state; == is limb equality. Solver-decided for all inputs within the stated size bounds.", "DESIGN.md 5 (C07)"),
+ "C08": _k("Every G1/G2 decoder over ALL byte strings of the format length (arbitrary prefix/coordinates) and every other length 0..=140: no panic, Ok implies exact length/prefix/coordinates < q, no spurious rejection, re-encoding gives back the input; dev-profile semantics so a reachable debug assertion is a failure.", "DESIGN.md 5 (C08)"),
+ "C10": _k("Byte layouts of all six encoders over arbitrary canonical coordinates (prefix, big-endian, imaginary first, parity bit) and decode->encode round trip on all well-formed strings.", "DESIGN.md 5 (C10)"),
+ "C11": _k("Gt::to_slice layout (highest coefficient first, every limb below q) and == as coefficient equality, for all twelve coefficients symbolic.", "DESIGN.md 5 (C11)"),
+ "C13": _k("Byte/decimal/hash conversions over byte strings of EVERY length 0..=70 with symbolic content: accepted lengths, left padding, data flow into the reduction kernels, from_hash range, set_bit on the canonical value, to_big_endian error path.", "DESIGN.md 5 (C13)"),
+ "C18": _k("Kani models the dev profile (overflow checks, debug assertions, bounds checks): every harness of the linear, conversion and decoder families is decided with those checks as proof obligations over all inputs, malformed ones included.", "DESIGN.md 5 (C18)"),
+})
 NOT_APPLICABLE = {
  "C01": "Bilinearity/non-degeneracy are theorems about Miller functions of degree ~2^65 in the inputs, not a bounded computation: no loop bound or input bound exists under which the real code still computes the SM9 pairing, and one symbolic Montgomery multiplication already exceeds CBMC (20 min, no verdict); the decidable mechanisms are checked under C03/C17.",
  "C02": "Byte-exact end-to-end value of a 65-iteration Miller loop plus a ~3000-bit exponentiation (~10^5 Montgomery multiplications, bit-precisely) cannot be encoded within reach of CBMC/z3; tower, Frobenius constants, final exponentiations and line functions are decided under C17.",
 }
-for p in ["C03","C04","C05","C07","C08","C09","C10","C11","C12","C13","C14","C15","C16","C17","C18"]:
+for p in ["C03","C04","C05","C09","C12","C14","C15","C16","C17"]:
     NOT_APPLICABLE[p] = PENDING
